@@ -221,3 +221,105 @@ pub fn wait_dropped(stats: &Arc<DecStats>) -> bool {
 	}
 	stats.dropped.load(Ordering::SeqCst)
 }
+
+// ---------------------------------------------------------------------------------------------
+// probe sound: emits known per-frame codes, logs every process call, records where it is dropped
+
+use kira::info::Info;
+use kira::sound::{Sound, SoundData};
+use std::sync::Mutex;
+
+pub struct ProbeShared {
+	pub finished: AtomicBool,
+	pub dropped: AtomicBool,
+	pub dropped_in_callback: AtomicBool,
+	/// (len, dt) of every process call; capacity reserved up front so logging never allocates
+	pub calls: Mutex<Vec<(u32, f64)>>,
+	pub on_start_calls: AtomicU64,
+	pub frames_emitted: AtomicU64,
+}
+
+impl ProbeShared {
+	pub fn new() -> Arc<Self> {
+		Arc::new(Self {
+			finished: AtomicBool::new(false),
+			dropped: AtomicBool::new(false),
+			dropped_in_callback: AtomicBool::new(false),
+			calls: Mutex::new(Vec::with_capacity(4096)),
+			on_start_calls: AtomicU64::new(0),
+			frames_emitted: AtomicU64::new(0),
+		})
+	}
+}
+
+/// frame number n (0-based, counted over the sound's life) -> (left,right) = (a0 + n*da, b0 + n*db)
+#[derive(Clone)]
+pub struct ProbeSoundData {
+	pub shared: Arc<ProbeShared>,
+	pub left: (f32, f32),
+	pub right: (f32, f32),
+	/// fail in into_sound (a fallible SoundData)
+	pub fail: bool,
+}
+
+impl ProbeSoundData {
+	pub fn new(left: (f32, f32), right: (f32, f32)) -> Self {
+		Self {
+			shared: ProbeShared::new(),
+			left,
+			right,
+			fail: false,
+		}
+	}
+	pub fn frame(&self, n: u64) -> Frame {
+		Frame::new(self.left.0 + n as f32 * self.left.1, self.right.0 + n as f32 * self.right.1)
+	}
+}
+
+pub struct ProbeSound {
+	data: ProbeSoundData,
+	n: u64,
+}
+
+impl SoundData for ProbeSoundData {
+	type Error = ();
+	type Handle = Arc<ProbeShared>;
+	fn into_sound(self) -> Result<(Box<dyn Sound>, Self::Handle), Self::Error> {
+		if self.fail {
+			return Err(());
+		}
+		let shared = self.shared.clone();
+		Ok((Box::new(ProbeSound { data: self, n: 0 }), shared))
+	}
+}
+
+impl Sound for ProbeSound {
+	fn on_start_processing(&mut self) {
+		self.data.shared.on_start_calls.fetch_add(1, Ordering::SeqCst);
+	}
+	fn process(&mut self, out: &mut [Frame], dt: f64, _info: &Info) {
+		{
+			let mut c = self.data.shared.calls.lock().unwrap();
+			if c.len() < c.capacity() {
+				c.push((out.len() as u32, dt));
+			}
+		}
+		for f in out.iter_mut() {
+			*f = self.data.frame(self.n);
+			self.n += 1;
+		}
+		self.data.shared.frames_emitted.store(self.n, Ordering::SeqCst);
+	}
+	fn finished(&self) -> bool {
+		self.data.shared.finished.load(Ordering::SeqCst)
+	}
+}
+
+impl Drop for ProbeSound {
+	fn drop(&mut self) {
+		self.data.shared.dropped.store(true, Ordering::SeqCst);
+		if crate::rig::in_callback() {
+			self.data.shared.dropped_in_callback.store(true, Ordering::SeqCst);
+		}
+	}
+}
